@@ -136,6 +136,8 @@ func C11ManyPending() {
 	c := NewClient(NewChannel(e, DefaultCap()))
 	var disconnects int32
 	c.OnDisconnect(func(err error) { atomic.AddInt32(&disconnects, 1) })
+	var disconnects2 int32
+	c.OnDisconnect(func(err error) { atomic.AddInt32(&disconnects2, 1) }) // a second, independent callback
 	const pending = 11
 	res := make([]chan zzCallRes, pending)
 	for i := 0; i < pending; i++ {
@@ -157,6 +159,7 @@ func C11ManyPending() {
 		sym.Assert(r.err != nil, "pending-call-succeeded-without-reply")
 	}
 	sym.Assert(atomic.LoadInt32(&disconnects) == 1, "disconnect-callback-exactly-once")
+	sym.Assert(atomic.LoadInt32(&disconnects2) == 1, "second-disconnect-callback-exactly-once")
 	sym.Reach("many-pending-done")
 }
 
